@@ -241,6 +241,20 @@ def mon_c05(script, res):
         for i, st in enumerate(cur):
             if st not in (0, 100, 200, 1000):
                 return 'main loop exited while p%d was in state %s' % (i, st)
+    # "it does exit provided every child dies": two consecutive boundaries after the request at which no child is alive
+    # or unreaped and every process is in a stopped state (a process whose signalling failed, UNKNOWN, included) mean
+    # that the loop passed its exit test without exiting
+    if res['ended'] == 'script':
+        quiet = 0
+        for s_ in res['snaps']:
+            if s_['mood'] < 1 and not s_['live'] and not s_['zombies'] and \
+                    all(st in (0, 100, 200, 1000) for st, _pid in s_['procs']):
+                quiet += 1
+                if quiet >= 3:
+                    return ('the daemon was asked to shut down, no child is alive and every process is in a stopped state, '
+                            'yet the main loop went through three more passes without exiting')
+            else:
+                quiet = 0
     # mood never returns to RUNNING once below
     low = False
     for s in res['snaps']:
